@@ -328,35 +328,62 @@ def check_exact_root_exits(run, ix):
              and c.func.id in ('nthroot_fixed', 'mpf_pow')]
     if len(roots) < 2:
         raise AnalysisError('mpf_nthroot: the two root computations were not found')
-    # the statements that produce the value handed back for n >= 2: assignments to the name that the
-    # branch returns / divides
-    for rc in roots:
-        st = rc
+    # every final rounding of an approximate root (from_man_exp(..., prec, rnd) / mpf_pos(r, prec, rnd) after a root
+    # computation) must be reached only when the perfect-power test has failed
+    first = min(rc.lineno for rc in roots)
+
+    def is_exact_call(c):
+        return isinstance(c, ast.Call) and norm(c.func) == 'exact_nthroot' and len(c.args) == 4 \
+            and [norm(a) for a in c.args[:3]] == [par[0], par[1], par[2]]
+    exact_names = {a.targets[0].id for a in _walk_own(f.node) if isinstance(a, ast.Assign) and len(a.targets) == 1
+                   and isinstance(a.targets[0], ast.Name) and is_exact_call(a.value)}
+
+    def mentions_exact(e):
+        return any(is_exact_call(c) or (isinstance(c, ast.Name) and c.id in exact_names) for c in ast.walk(e))
+
+    def failed_branch(test):
+        """'body' / 'orelse': the branch of `if test` taken when the exact test FAILED, None if unclear"""
+        t = test
+        if isinstance(t, ast.UnaryOp) and isinstance(t.op, ast.Not) and mentions_exact(t.operand):
+            return 'body'
+        if isinstance(t, ast.Compare) and len(t.ops) == 1 and norm(t.comparators[0]) == 'None' and mentions_exact(t.left):
+            return 'body' if isinstance(t.ops[0], (ast.Is, ast.Eq)) else 'orelse'
+        if mentions_exact(t) and isinstance(t, (ast.Name, ast.Call)):
+            return 'orelse'
+        return None
+    roundings = [c for c in _walk_own(f.node) if isinstance(c, ast.Call) and c.lineno >= first and
+                 ((norm(c.func) == 'from_man_exp' and len(c.args) == 4 and norm(c.args[2]) == par[2]) or
+                  (norm(c.func) == 'mpf_pos' and len(c.args) == 3 and norm(c.args[1]) == par[2]) or
+                  (norm(c.func) in ('normalize', 'normalize1') and len(c.args) == 6 and norm(c.args[4]) == par[2]))
+                 and not any(c is a or any(c is y for y in ast.walk(a)) for e in _walk_own(f.node)
+                             if is_exact_call(e) for a in e.args)]
+    if len(roundings) < 2:
+        raise AnalysisError('mpf_nthroot: the final roundings of the two branches were not found')
+    for c in roundings:
+        guarded = False
+        child, p_ = c, getattr(c, '_parent', None)
+        while p_ is not None and p_ is not f.node:
+            if isinstance(p_, ast.BoolOp) and isinstance(p_.op, ast.Or):
+                k = [i for i, v in enumerate(p_.values) if v is child or any(child is y for y in ast.walk(v))]
+                if k and any(mentions_exact(v) for v in p_.values[:k[0]]):
+                    guarded = True
+            if isinstance(p_, ast.IfExp) and mentions_exact(p_.test):
+                guarded = guarded or (child is p_.orelse and isinstance(p_.test, (ast.Name, ast.Call)))
+            if isinstance(p_, ast.If):
+                br = failed_branch(p_.test)
+                if br and child in getattr(p_, br):
+                    guarded = True
+            child, p_ = p_, getattr(p_, '_parent', None)
+        st = c
         while not isinstance(st, ast.stmt):
             st = st._parent
-        blk = st._parent.body if st in getattr(st._parent, 'body', []) else st._parent.orelse
-        i = blk.index(st)
-        # first later statement of the block that assigns from a BoolOp / rounding call
-        prod = None
-        for nxt in blk[i:]:
-            if isinstance(nxt, ast.Assign) and isinstance(nxt.value, (ast.BoolOp, ast.Call)) and nxt is not st:
-                v = nxt.value
-                if isinstance(v, ast.BoolOp) or norm(v.func) in ('mpf_pos', 'from_man_exp'):
-                    prod = nxt
-                    break
-        if prod is None:
-            raise AnalysisError('mpf_nthroot: result of %s is not bound' % norm(rc, 40))
-        v = prod.value
-        ok = isinstance(v, ast.BoolOp) and isinstance(v.op, ast.Or) and isinstance(v.values[0], ast.Call) \
-            and norm(v.values[0].func) == 'exact_nthroot' and len(v.values[0].args) == 4 \
-            and [norm(a) for a in v.values[0].args[:3]] == [par[0], par[1], par[2]]
-        if ok:
-            run.ok('E-X1', 'mpf_nthroot: %s' % norm(prod, 90))
+        if guarded:
+            run.ok('E-X1', 'mpf_nthroot: `%s` is reached only after the perfect-power test failed' % norm(c, 60))
         else:
-            run.fail(Finding('E-X1', LIBELE, 'mpf_nthroot', norm(prod), 'this branch rounds its approximate root '
+            run.fail(Finding('E-X1', LIBELE, 'mpf_nthroot', norm(st), 'this branch rounds its approximate root '
                              'without testing for a perfect power first: under a directed mode the root of x**n '
                              'comes out one unit off (mpf_nthroot(1.0, 17, 53, \'u\') == 1 + 2**-52, the 21st root '
-                             'of 2**21 rounded down is 2 - 2**-52)', line=prod.lineno))
+                             'of 2**21 rounded down is 2 - 2**-52)', line=st.lineno))
     h = ix.find_func(LIBELE, 'exact_nthroot')
     if h is None:
         if any(x.rule == 'E-X1' for x in run.findings):
